@@ -44,12 +44,16 @@ pub fn conf_of_json(j: &J) -> MessageConfig {
     }
 }
 /// Message::new -> byte_len -> as_bytes -> add_storage_header(Some(ts)) -> as_bytes -> dlt_message
-pub fn build_event(conf: &MessageConfig, secs: u32, us: u32) -> J {
+pub fn build_event(conf: &MessageConfig, secs: u32, us: u32) -> J { build_event_sh(conf, secs, us, None) }
+/// `sh0`: the storage header the message is constructed with (add_storage_header then replaces it)
+pub fn build_event_sh(conf: &MessageConfig, secs: u32, us: u32, sh0: Option<StorageHeader>) -> J {
+    let sh0j = proj::opt(&sh0, proj::storage_header);
     let res = match catch_unwind(AssertUnwindSafe(|| {
-        let m = Message::new(conf.clone(), None);
+        let m = Message::new(conf.clone(), sh0.clone());
         let blen = m.byte_len();
-        let bytes = m.as_bytes();
+        let bytes = { let mut plain = m.clone(); plain.storage_header = None; plain.as_bytes() };
         let m2 = m.clone().add_storage_header(Some(DltTimeStamp { seconds: secs, microseconds: us }));
+        // a second call (with the ECU id of the header changed in between) replaces it again
         let bytes2 = m2.as_bytes();
         let parse = slice::parse_res(&bytes2, None, true, false);
         json!({"v": "ok", "m": proj::message(&m), "blen": blen, "bytes": proj::bytes(&bytes), "m2": proj::message(&m2), "bytes2": proj::bytes(&bytes2), "parse": parse})
@@ -57,7 +61,7 @@ pub fn build_event(conf: &MessageConfig, secs: u32, us: u32) -> J {
         Ok(j) => j,
         Err(_) => json!({"v": "panic"}),
     };
-    json!({"op": "build", "conf": conf_json(conf), "ts": {"secs": proj::bytes(&secs.to_be_bytes()), "us": proj::bytes(&us.to_be_bytes())}, "res": res})
+    json!({"op": "build", "conf": conf_json(conf), "sh0": sh0j, "ts": {"secs": proj::bytes(&secs.to_be_bytes()), "us": proj::bytes(&us.to_be_bytes())}, "res": res})
 }
 pub fn arg_event(a: &Argument) -> J {
     let res = match catch_unwind(AssertUnwindSafe(|| {
@@ -183,7 +187,8 @@ pub fn record(mode: &str, seed: u64, n: usize, out: &mut Out) {
             for i in 0..n {
                 let c = random_conf(&mut r, i);
                 out.calls += 6;
-                out.emit(build_event(&c, r.next() as u32, r.next() as u32), true);
+                let sh0 = if i % 4 == 1 { Some(StorageHeader { timestamp: DltTimeStamp { seconds: r.next() as u32, microseconds: r.next() as u32 }, ecu_id: r.pick(&["LOGR", "", "E", "ECU"]).to_string() }) } else { None };
+                out.emit(build_event_sh(&c, r.next() as u32, r.next() as u32, sh0), true);
                 let big = if r.one_in(20) { 3000 } else { 12 };
                 let a = if r.one_in(3) { mismatched_arg(&mut r) } else { gen::argument(&mut r, big) };
                 out.calls += 4;
@@ -202,6 +207,15 @@ pub fn record(mode: &str, seed: u64, n: usize, out: &mut Out) {
                     inputs.push(7 * unit + rem % unit);
                     inputs.push((u32::MAX as u64) * unit + rem % unit);
                 }
+            }
+            for k in 1..=1100u64 {
+                // the last whole seconds below k * 2^32 units, and the values around k * 2^32
+                let m = k << 32;
+                for unit in [1000u64, 1_000_000] {
+                    let s0 = m / unit * unit;
+                    for d in [0u64, unit, 2 * unit] { inputs.push(s0.wrapping_sub(d)); inputs.push(s0.wrapping_sub(d) + unit - 1); }
+                }
+                inputs.push(m); inputs.push(m - 1); inputs.push(m + 1);
             }
             for k in 0..64 { inputs.push(1u64 << k); inputs.push((1u64 << k).wrapping_sub(1)); inputs.push((1u64 << k) + 1); }
             let mut p = 1u64;
@@ -229,6 +243,16 @@ pub fn record(mode: &str, seed: u64, n: usize, out: &mut Out) {
                         if !w64 && (off > i32::MAX as i64 || off < i32::MIN as i64) { continue; }
                         let a = Argument { type_info: TypeInfo { kind: TypeInfoKind::UnsignedFixedPoint(if w64 { FloatWidth::Width64 } else { FloatWidth::Width32 }), coding: StringCoding::ASCII, has_variable_info: false, has_trace_info: false },
                             name: None, unit: None, fixed_point: Some(FixedPoint { quantization: q, offset: if w64 { FixedPointValue::I64(off) } else { FixedPointValue::I32(off as i32) } }), value: val.clone() };
+                        out.calls += 1;
+                        out.emit(real_event(&a), true);
+                    }
+                }
+            }
+            for q in [0.01f32, 0.02, 0.7, 0.9, 0.1, 0.3, 0.99, 1.0 / 3.0, 2.0 / 3.0] {
+                for v in [10u32, 30, 100, 200, 700, 1000, 10_000, 1_000_000] {
+                    for off in [i32::MAX, i32::MAX - 1, 1 << 30, 1 << 28, 1 << 26, (1 << 28) + 1, 1 << 24, 16_777_217] {
+                        let a = Argument { type_info: TypeInfo { kind: TypeInfoKind::UnsignedFixedPoint(FloatWidth::Width32), coding: StringCoding::ASCII, has_variable_info: false, has_trace_info: false },
+                            name: None, unit: None, fixed_point: Some(FixedPoint { quantization: q, offset: FixedPointValue::I32(off) }), value: Value::U32(v) };
                         out.calls += 1;
                         out.emit(real_event(&a), true);
                     }
@@ -264,7 +288,7 @@ pub fn record(mode: &str, seed: u64, n: usize, out: &mut Out) {
 
 pub fn rerun(ev: &J) -> J {
     match ev["op"].as_str().unwrap_or("") {
-        "build" => build_event(&conf_of_json(&ev["conf"]), unproj::u32_of(&ev["ts"]["secs"]), unproj::u32_of(&ev["ts"]["us"])),
+        "build" => build_event_sh(&conf_of_json(&ev["conf"]), unproj::u32_of(&ev["ts"]["secs"]), unproj::u32_of(&ev["ts"]["us"]), ev.get("sh0").and_then(|s| unproj::opt(s)).map(unproj::storage_header)),
         "arg" => arg_event(&unproj::argument(&ev["a"])),
         "real" => real_event(&unproj::argument(&ev["a"])),
         "from_ms" | "from_us" => {
